@@ -32,6 +32,7 @@ namespace RV.C12
 inductive Lbl
   | named (n : Nat)
   | anon (n : Nat)
+  | inner (s : Nat) (n : Nat)   -- round g, specification side only: `_:n` inside N3 formula number `s` (N3 scopes labels per formula)
   deriving DecidableEq, Repr
 
 /-- terms of a document -/
@@ -46,6 +47,7 @@ inductive T
   | iri (n : Nat)
   | lit (n : Nat)
   | bn (id : Nat)
+  | skol (id : Nat)      -- `BNode(id).skolemize()`: the IRI `…/.well-known/genid/<id>` (round g; only made when skolemize=True)
   deriving DecidableEq, Repr
 
 inductive Policy
